@@ -8,6 +8,7 @@ WORK = os.path.join(ROOT, "work")
 SPEC = os.path.join(ROOT, "spec")
 VH = os.path.join(ROOT, "harness", "target", "debug", "vh")
 NCPU = os.cpu_count() or 4
+TLA_CP = "/opt/veriftools/tla/tla2tools.jar:/opt/veriftools/tla/CommunityModules-deps.jar"
 
 class ToolError(Exception): pass
 
@@ -77,11 +78,14 @@ def tlc(module, cfg, env, wd, workers=8, timeout=1800, simulate=None, extra=None
     """Runs TLC on spec/<module>.tla with spec/<cfg>; returns dict(out, states, distinct, ok, verdicts)."""
     meta = os.path.join(wd, "tlcmeta." + module + "." + str(abs(hash(json.dumps(env, sort_keys=True))) % 100000))
     tmp = os.path.join(wd, "jtmp"); os.makedirs(tmp, exist_ok=True)
-    jopts = f"-Xss512m -Xmx{heap} -Djava.io.tmpdir={tmp}"
-    if deque: jopts += " -Dtlc2.tool.queue.IStateQueue=StateDeque"
-    e = dict(os.environ, JAVA_TOOL_OPTIONS=jopts)
+    # java is invoked directly (same jars as the `tlc` wrapper) so that -Xss also sizes the main thread,
+    # which evaluates invariants on initial states (JAVA_TOOL_OPTIONS only reaches threads created later)
+    jopts = ["-Xss1g", f"-Xmx{heap}", f"-Djava.io.tmpdir={tmp}", "-XX:+UseParallelGC"]
+    if deque: jopts.append("-Dtlc2.tool.queue.IStateQueue=StateDeque")
+    e = dict(os.environ)
+    e.pop("JAVA_TOOL_OPTIONS", None)
     e.update({k: str(v) for k, v in env.items()})
-    cmd = ["timeout", str(timeout), "tlc", "-workers", str(workers), "-metadir", meta, "-cleanup", "-noGenerateSpecTE", "-config", cfg]
+    cmd = ["timeout", str(timeout), "java"] + jopts + ["-cp", TLA_CP, "tlc2.TLC", "-workers", str(workers), "-metadir", meta, "-cleanup", "-noGenerateSpecTE", "-config", cfg]
     if simulate: cmd += ["-simulate", simulate]
     if extra: cmd += extra
     cmd += [module + ".tla"]
